@@ -462,6 +462,10 @@ fn run(args: &Args, rep: &mut Report) {
             std::process::exit(2);
         }
     }
+    if args.extra.contains_key("huge") {
+        huge(rep);
+        rep.notes.push("4 GiB lane: a keyed blake3_hasher at the widest mask fed 2^32+3149 bytes in one update and cut at 2^32-1; finalize_seek(63, 130) vs the spec".into());
+    }
     let tr = rep.get("transitions");
     rep.counters.insert("traces_validated_against_impl".into(), tr);
     rep.configs.push(json!({"flavour": flavour(), "levels": levels.iter().map(|l| l.0).collect::<Vec<_>>()}));
@@ -471,7 +475,51 @@ fn run(args: &Args, rep: &mut Report) {
     rep.assumptions.push("agreement with the Rust crate follows from both being compared with the same spec model on the same case space (C01-C03)".into());
 }
 
+/// One input beyond 4 GiB at the widest dispatch mask (size_t / uint64_t arithmetic on lengths,
+/// chunk counters and the subtree split): one update call, and the same bytes cut at 2^32 - 1.
+fn huge(rep: &mut Report) {
+    let levels = masks();
+    let (lname, mask) = *levels.last().unwrap();
+    unsafe { verif_set_features(mask) };
+    let n = (1usize << 32) + 3 * 1024 + 77;
+    let period: Vec<u8> = (0..251 * 4096).map(|i| (i % 251) as u8).collect();
+    let mut data = Vec::with_capacity(n);
+    while data.len() < n {
+        let take = (n - data.len()).min(period.len());
+        data.extend_from_slice(&period[..take]);
+    }
+    let mode = Mode::Keyed(*vcommon::TEST_KEY);
+    let exp = b3spec::node_parallel16(&mode.spec(), &data, 1 << 28).root_bytes(63, 130);
+    for pieces in [vec![n], vec![(1usize << 32) - 1, 1, n - (1usize << 32)]] {
+        rep.inc("evaluations");
+        rep.inc("distinct_nontrivial");
+        rep.inc("spec_comparisons");
+        rep.inc("huge_histories");
+        let mut h = mode.init();
+        let mut at = 0usize;
+        for &k in &pieces {
+            unsafe { blake3_hasher_update(&mut h, data[at..].as_ptr() as *const _, k) };
+            at += k;
+        }
+        let mut out = vec![0u8; 130];
+        unsafe { blake3_hasher_finalize_seek(&h, 63, out.as_mut_ptr(), 130) };
+        if out != exp {
+            rep.violation("update:huge-input", format!("{} keyed hasher fed {} bytes as {:?}: finalize_seek(63, 130) differs from the spec", lname, n, pieces),
+                json!({"property": "C06", "engine": "clib/hasher_bfs", "huge": {"pieces": pieces, "level": lname}, "check": "update:huge-input"}));
+        }
+    }
+}
+
 fn replay(v: &Value) -> bool {
+    if v["huge"].is_object() {
+        let args = Args { prop: "C06".into(), tier: "quick".into(), seed: 1, report: String::new(), replay: None, jobs: 1, extra: Default::default() };
+        let mut rep = Report::new(&args, "replay", "model_checking");
+        huge(&mut rep);
+        for x in rep.violations.iter().take(3) {
+            println!("violation {}: {}", x.key, x.summary);
+        }
+        return !rep.violations.is_empty();
+    }
     let mode = Mode::from_json(&v["mode"]);
     let level = v["config"]["level"].as_str().unwrap_or("portable");
     let lv = masks().into_iter().find(|l| l.0 == level).expect("level not available");
